@@ -23,7 +23,7 @@ RULE = ("seeded random circuits (all component kinds, loss, barriers, unitary bl
 MANDATORY = ["swap_blocked_by:PhaseShifter", "swap_blocked_by:BeamSplitter", "swap_blocked_by:Loss",
              "swap_blocked_by:Group", "swap_blocked_by:UnitaryMatrix", "swaps_mergeable",
              "reversed_nonadjacent_bs_in_group", "heralded_group_unpacked", "frozen_copy", "independence_checked",
-             "original_gets_heralded_subcircuit_after_copy", "copy_unpacked_then_edited"]
+             "original_gets_heralded_subcircuit_after_copy", "copy_unpacked_then_edited", "rewrite_applied_twice"]
 DECIDING = ["rewrite_postconditions", "mon.cmp"]
 BUDGET = {"quick": 25, "thorough": 420}
 ASSUMPTIONS = ["U_full compared entry-wise to 1e-9 (the rewrites do not reorder loss modes)",
@@ -225,6 +225,14 @@ def run(ctx):
                         c = c2
                 else:
                     getattr(c, rw)()
+                    if rng.random() < 0.3:
+                        spec_once = circmon.spec_digest(c._get_circuit_spec(), ids=False)
+                        getattr(c, rw)()                   # the monitor checks U_full etc. again
+                        ctx.bucket("rewrite_applied_twice")
+                        if rw != "compress_mode_swaps" and circmon.spec_digest(c._get_circuit_spec(), ids=False) != spec_once:
+                            ctx.violation(f"{rw} applied a second time changed the component list again",
+                                          case={"circuit": log, "rewrites": seq}, mechanism="rewrite_not_idempotent:" + rw,
+                                          monitor="repeated rewrite")
                 ctx.count("rewrite_postconditions")
             except Exception as e:  # noqa: BLE001
                 ctx.violation(f"{rw} raised {type(e).__name__}: {e}", case={"circuit": log, "rewrites": seq},
